@@ -219,6 +219,37 @@ Proof.
   exists b'. split; [exact Hb'|]. split; [apply nfl_ge_live_spec; exact G1|exact G2].
 Qed.
 
+(* ---- oversized updates and membership: the reliable-channel receiver list is the member view (by NAME) minus
+   self at the time the message is taken (c19_oversized_to_every_peer with e_peers := oversize_receivers self h).
+   Over EVERY membership history: an instance that joined under name n stays a receiver until the name n itself
+   leaves — in particular a restarted instance that re-joined under a NEW name at the address of its old name keeps
+   receiving oversized updates when the old name is (later) declared dead. ---- *)
+Theorem c19_member_until_its_own_name_leaves h n a h' :
+  Forall (fun e => e <> MLeave n) h' -> n ∈ map fst (members_after (h ++ MJoin n a :: h')).
+Proof. exact (member_until_its_own_name_leaves h n a h'). Qed.
+
+Theorem c19_oversize_receiver_until_its_own_name_leaves self h n a h' :
+  n <> self -> Forall (fun e => e <> MLeave n) h' -> n ∈ oversize_receivers self (h ++ MJoin n a :: h').
+Proof. exact (oversize_receiver_until_its_own_name_leaves self h n a h'). Qed.
+
+Example c19_restart_same_address_new_name_nonvacuous :
+  oversize_receivers "A" [MJoin "A" "x:1"; MJoin "B" "x:2"; MJoin "C" "x:3"; MJoin "C2" "x:3"; MLeave "C"] = ["C2"; "B"].
+Proof. vm_compute. reflexivity. Qed.
+
+(* ---- TLS transport framing (small gossip packets over the pooled TLS connection): ASSUMPTION TIED BY THE HARNESS:
+   tlsConn.writePacket hands length prefix and message to the connection in one write under the connection mutex,
+   so the stream is a concatenation of whole frames. Given that, the reader recovers exactly the packets written,
+   whatever the number of concurrent writers. Byte-level interleaving (prefix and message written separately)
+   breaks it: witness below. ---- *)
+Theorem c19_atomic_frames_read_back_intact ps fuel :
+  (length ps <= fuel)%nat -> Forall (fun p => Z.of_nat (length p) < 4294967296) ps ->
+  parse_frames fuel (concat (map frame ps)) = Some ps.
+Proof. exact (parse_frames_of_frames ps fuel). Qed.
+
+Example c19_split_frames_interleave_refuted :
+  parse_frames 4 (le32 1 ++ le32 2 ++ [7%N] ++ [8%N; 9%N]) <> Some [[7%N]; [8%N; 9%N]].
+Proof. vm_compute. discriminate. Qed.
+
 (* ---- non-vacuity ---- *)
 Definition ex_wire : wire (list (option entry)) (option (string * list (option entry)) * option (list (string * list (option entry)))) :=
   mkWire _ _ (fun k b => Some (Some (k, b), None)) (fun _ => 0) fst (fun ps => Some (None, Some ps)) snd.
@@ -258,3 +289,5 @@ Print Assumptions c19_full_state_complete.
 Print Assumptions c19_eventual_delivery.
 Print Assumptions c19_nflog_meets_state_contract.
 Print Assumptions c19_nflog_full_state_complete.
+Print Assumptions c19_oversize_receiver_until_its_own_name_leaves.
+Print Assumptions c19_atomic_frames_read_back_intact.
